@@ -1,21 +1,292 @@
 """C03 — Encoder output is well-formed, deterministic, shortest-form CBOR."""
+import struct
 from verifkit.runner import Stream
-from verifkit import gen
+from verifkit import gen, wiregen as W
 
 ID = "C03"
-THM_MODULES = ["Minicbor.Thm.C03", "Minicbor.Thm.C03Builtin"]
+THM_MODULES = ["Minicbor.Thm.C03", "Minicbor.Thm.C03Builtin", "Minicbor.Thm.C03Ops"]
 P = "Minicbor.C03."
 REQUIRED = [P + n for n in """u8_pref u16_pref u32_pref u64_pref negArms_pref i8_pref i16_pref i32_pref i64_pref int_pref
 typeLen_pref tag_pref array_pref map_pref bytes_pref str_pref char_pref bool_pref null_pref undefined_pref
 f32_pref f64_pref f16_pref simple_pref_partial simple_counterexample simple_reserved_invalid
 array_denote map_denote tag_denote deterministic
-builtin_pref builtin_wellformed builtin_deterministic bare_tag_not_an_item value_prefTree""".split()]
+builtin_pref builtin_wellformed builtin_deterministic bare_tag_not_an_item value_prefTree
+balanced_spec ops_denote ops_denote_rel ops_denote_counterexample ops_denote_wf ops_denote_single ops_value
+ops_shortest ops_preferred ops_reference ops_complete ops_complete_preferred ops_append ops_unique""".split()]
 PACKAGES = ["hcore"]
 RULE = ("enc <method> <arg>: every Encoder method; all u8/i8/u16/i16 values and all 256 simple values exhaustively, "
         "boundary-dense (2^k±3, width edges) and seeded random 32/64-bit arguments, strings around the length-width edges; "
         "each op is executed twice by the implementation (determinism). A case is non-trivial if the implementation produced bytes; "
         "distinct = distinct op lines.")
 ASSUMPTIONS = ["model Enc.* = code is established only on the sampled arguments of 32/64-bit methods (exhaustive for 8/16-bit)"]
+
+
+# ----------------------------------------------------------------------------- balanced call sequences
+# A sequence of Encoder calls is written as a token list (`tokenc`): Encoder::tokens calls, for every token, the Encoder
+# method it stands for.  `denote` is the orchestrator's own reading of a call sequence (independent of the Lean model's
+# `balanced`): the list of complete items it writes, every head at the shortest width, or None if it is not balanced.
+
+INTK = ("u8", "u16", "u32", "u64", "i8", "i16", "i32", "i64", "int")
+
+
+class Unbalanced(Exception):
+    pass
+
+
+def f32_to_f16_bits(x):
+    """half::f16::from_f32 on bit patterns: round to nearest even, overflow to infinity, NaN keeps sign + top payload bits, quiet bit set."""
+    s, e, m = x >> 31, (x >> 23) & 0xff, x & 0x7fffff
+    if e == 0xff and m:
+        return (s << 15) | 0x7c00 | 0x200 | (m >> 13)
+    try:
+        return struct.unpack(">H", struct.pack(">e", struct.unpack(">f", x.to_bytes(4, "big"))[0]))[0]
+    except OverflowError:
+        return (s << 15) | 0x7c00
+
+
+def denote(toks):
+    pos = 0
+    mw = W.min_width
+    unhex = lambda a: b"" if a == "-" else bytes.fromhex(a)
+
+    def item():
+        nonlocal pos
+        if pos >= len(toks):
+            raise Unbalanced
+        k, _, a = toks[pos].partition(":")
+        pos += 1
+        if k in INTK:
+            v = int(a)
+            return ("uint", mw(v), v) if v >= 0 else ("nint", mw(-1 - v), -1 - v)
+        if k == "bool": return ("simple", 21 if a == "T" else 20)
+        if k == "null": return ("simple", 22)
+        if k == "undefined": return ("simple", 23)
+        if k == "simple": return ("simple", int(a))
+        if k == "f16": return ("f16", f32_to_f16_bits(int(a[1:], 16)))
+        if k == "f32": return ("f32", int(a[1:], 16))
+        if k == "f64": return ("f64", int(a[1:], 16))
+        if k == "bytes":
+            b = unhex(a[1:]); return ("bytes", mw(len(b)), b)
+        if k == "string":
+            b = unhex(a[1:]); return ("text", mw(len(b)), b)
+        if k == "tag":
+            n = int(a); return ("tag", mw(n), n, item())
+        if k in ("array", "map"):
+            n = int(a)
+            cnt = n if k == "array" else 2 * n
+            if cnt > len(toks) - pos:
+                raise Unbalanced
+            return (k, mw(n), [item() for _ in range(cnt)])
+        if k in ("beginarray", "beginmap"):
+            xs = []
+            while True:
+                if pos >= len(toks): raise Unbalanced
+                if toks[pos] == "break":
+                    pos += 1; break
+                xs.append(item())
+            if k == "beginmap" and len(xs) % 2: raise Unbalanced
+            return ("arrayI" if k == "beginarray" else "mapI", xs)
+        if k in ("beginbytes", "beginstring"):
+            want = "bytes" if k == "beginbytes" else "string"
+            cs = []
+            while True:
+                if pos >= len(toks): raise Unbalanced
+                if toks[pos] == "break":
+                    pos += 1; break
+                kk, _, aa = toks[pos].partition(":")
+                if kk != want: raise Unbalanced
+                b = unhex(aa[1:]); cs.append((mw(len(b)), b)); pos += 1
+            return ("bytesI" if k == "beginbytes" else "textI", cs)
+        raise Unbalanced           # a stray `break`
+
+    out = []
+    try:
+        while pos < len(toks):
+            out.append(item())
+    except Unbalanced:
+        return None
+    return out
+
+
+def int_call(rng, v):
+    """a random Encoder integer method whose argument type holds v."""
+    ks = [k for k in INTK if W.INT_RANGE[k][0] <= v <= W.INT_RANGE[k][1]]
+    return f"{rng.choice(ks)}:{v}"
+
+
+def calls_of_tree(rng, t, k1=False):
+    """the Encoder calls that write tree t (concrete token syntax; integer methods chosen at random among those that fit)."""
+    k = t[0]
+    hx = gen.hexb
+    sub = lambda xs: [c for x in xs for c in calls_of_tree(rng, x, k1)]
+    if k == "uint": return [int_call(rng, t[2])]
+    if k == "nint": return [int_call(rng, -1 - t[2])]
+    if k == "bytes": return ["bytes:h" + hx(t[2])]
+    if k == "text": return ["string:s" + hx(t[2])]
+    if k == "bytesI": return ["beginbytes"] + ["bytes:h" + hx(b) for _, b in t[1]] + ["break"]
+    if k == "textI": return ["beginstring"] + ["string:s" + hx(b) for _, b in t[1]] + ["break"]
+    if k == "array": return ["array:%d" % len(t[2])] + sub(t[2])
+    if k == "arrayI": return ["beginarray"] + sub(t[1]) + ["break"]
+    if k == "map": return ["map:%d" % (len(t[2]) // 2)] + sub(t[2])
+    if k == "mapI": return ["beginmap"] + sub(t[1]) + ["break"]
+    if k == "tag": return ["tag:%d" % t[2]] + calls_of_tree(rng, t[3], k1)
+    if k == "simple":
+        if 20 <= t[1] <= 23 and not k1:
+            return [{20: "bool:F", 21: "bool:T", 22: "null", 23: "undefined"}[t[1]]]
+        return ["simple:%d" % t[1]]
+    if k == "f16":
+        x = W.f16_to_f32_bits(t[1])
+        if rng.random() < 0.3 and (t[1] >> 10) & 31 not in (0, 31):
+            x |= rng.getrandbits(3)          # a non-half-representable f32 a little above: rounds back to the same half
+        return ["f16:x%08x" % x]
+    if k == "f32": return ["f32:x%08x" % t[1]]
+    if k == "f64": return ["f64:x%016x" % t[1]]
+    raise ValueError(k)
+
+
+def pref_tree(t):
+    """shortest heads, indefiniteness and chunking kept (what the encoder is claimed to write)."""
+    k = t[0]
+    mw = W.min_width
+    if k in ("uint", "nint"): return (k, mw(t[2]), t[2])
+    if k in ("bytes", "text"): return (k, mw(len(t[2])), t[2])
+    if k in ("bytesI", "textI"): return (k, [(mw(len(b)), b) for _, b in t[1]])
+    if k == "array": return (k, mw(len(t[2])), [pref_tree(x) for x in t[2]])
+    if k == "map": return (k, mw(len(t[2]) // 2), [pref_tree(x) for x in t[2]])
+    if k in ("arrayI", "mapI"): return (k, [pref_tree(x) for x in t[1]])
+    if k == "tag": return (k, mw(t[2]), t[2], pref_tree(t[3]))
+    return t
+
+
+def is_k1(toks):
+    return any(t.startswith("simple:") and 20 <= int(t[7:]) <= 31 for t in toks)
+
+
+def judge_balanced(op, impl, model, spec):
+    toks = op.split(" ")[1].split(",")
+    den = denote(toks)
+    if den is None:
+        # not balanced: nothing is claimed about the bytes; the model must still agree with the code and with this reading
+        return "ok" if impl == model and spec == "unbalanced" else "corr"
+    exp = gen.hexb(b"".join(W.enc(t) for t in den))
+    ihex = impl.split(" ")[0]
+    if is_k1(toks):
+        # simple(20..=23) writes f8 xx instead of the one-byte form; simple(24..=31) denotes no well-formed item at all
+        bad = ihex != exp or spec.endswith("valid=F")
+        return ("known", "K1") if bad and impl == model else "violation" if bad else "corr"
+    if ihex != exp:
+        # (i) the bytes are not exactly the expected sequence of well-formed items in preferred serialisation
+        return "violation"
+    from verifkit import typegen
+    b = b"" if ihex == "-" else bytes.fromhex(ihex)
+    pos, n = 0, 0
+    while pos < len(b):
+        it = typegen.walk(b, pos)
+        if it is None:
+            return "violation"
+        pos, n = it.end, n + 1
+    if n != len(den):
+        return "violation"
+    if spec != f"{exp} items={len(den)} valid=T":
+        return "corr"                       # the Lean denotation (`balanced`) differs from the orchestrator's reading
+    return "ok" if impl == model else "corr"   # (ii) the model's line
+
+
+def balanced_ops(rng, tier):
+    q = tier == "quick"
+    lists = []
+    def quiet(t):
+        # a signalling half NaN in a generated tree reaches the encoder quieted (the F16 call carries the widened f32)
+        k = t[0]
+        if k == "f16" and (t[1] >> 10) & 31 == 31 and t[1] & 0x3ff: return (k, t[1] | 0x200)
+        if k in ("array", "map"): return (k, t[1], [quiet(x) for x in t[2]])
+        if k in ("arrayI", "mapI"): return (k, [quiet(x) for x in t[1]])
+        if k == "tag": return (k, t[1], t[2], quiet(t[3]))
+        return t
+    def add_tree_seq(trees, k1=False):
+        toks = [c for t in trees for c in calls_of_tree(rng, t, k1)]
+        # generator sanity: the orchestrator's reading of the calls is the preferred form of the trees they were made from
+        den = denote(toks)
+        if den is None or [W.enc(a) for a in den] != [W.enc(quiet(pref_tree(t))) for t in trees]:
+            raise RuntimeError("balanced-call generator inconsistent: " + ",".join(toks))
+        lists.append(toks)
+    # boundary shapes: counts and lengths at the head-width edges, every container kind, empty containers
+    small = [("uint", 0, 1), ("nint", 0, 0), ("text", 0, b"a"), ("simple", 21), ("f16", 0x3c00), ("bytesI", [(0, b"\x01")])]
+    for n in (0, 1, 2, 23, 24, 25, 255, 256, 257):
+        add_tree_seq([("array", W.min_width(n), [rng.choice(small) for _ in range(n)])])
+        add_tree_seq([("map", W.min_width(n), [rng.choice(small) for _ in range(2 * n)])])
+        add_tree_seq([("arrayI", [rng.choice(small) for _ in range(n)])])
+        add_tree_seq([("mapI", [rng.choice(small) for _ in range(2 * n)])])
+    for n in (0, 1, 23, 24, 255, 256, 65535, 65536):
+        b = gen.rand_bytes(rng, n); s = bytes(0x61 + i % 26 for i in range(n))
+        add_tree_seq([("bytes", W.min_width(n), b)]); add_tree_seq([("text", W.min_width(n), s)])
+        add_tree_seq([("bytesI", [(0, b"\x00"), (W.min_width(n), b), (0, b"")])])
+        add_tree_seq([("textI", [(W.min_width(n), s), (0, b"z")])])
+        add_tree_seq([("array", 0, [("bytes", W.min_width(n), b), ("tag", 0, 2, ("text", W.min_width(n), s))])])
+    for g in gen.boundaries(64):
+        add_tree_seq([("tag", W.min_width(g), g, rng.choice(small))])
+        add_tree_seq([("array", 0, [("uint", W.min_width(g), g), ("nint", W.min_width(g), g)])])
+    for t in W.small_trees(rng, 100 if q else 1000):
+        add_tree_seq([t])
+    # random trees: depth <= 6, both definite and indefinite containers, chunked strings; <= 40 calls per sequence
+    want_n = 4000 if q else 80000
+    made = 0
+    while made < want_n:
+        trees = [W.rand_tree(rng, rng.randint(0, 6), preferred=True) for _ in range(rng.choice([1, 1, 1, 2, 3]))]
+        toks = [c for t in trees for c in calls_of_tree(rng, t)]
+        if len(toks) > 40:
+            continue
+        add_tree_seq(trees); made += 1
+    n_bal = len(lists)
+    # known finding K1 inside call sequences: simple(20..=23) written with Encoder::simple instead of bool/null/undefined
+    for n in range(20, 24):
+        add_tree_seq([("simple", n)], k1=True)
+        add_tree_seq([("array", 0, [("uint", 0, 1), ("simple", n)])], k1=True)
+        add_tree_seq([("mapI", [("simple", n), ("arrayI", [("simple", n)])])], k1=True)
+    for n in range(24, 32):
+        lists.append([f"simple:{n}"]); lists.append(["array:2", "u8:1", f"simple:{n}"])
+    # negative controls: mutations of balanced sequences; `denote` decides whether the result is still balanced
+    muts = []
+    for toks in rng.sample(lists[:n_bal], min(n_bal, 1500 if q else 20000)):
+        toks = list(toks)
+        if len(toks) > 60:
+            continue
+        r = rng.randrange(7)
+        i = rng.randrange(len(toks))
+        if r == 0: toks.pop()
+        elif r == 1: toks.pop(i)
+        elif r == 2: toks.insert(i, "break")
+        elif r == 3: toks.insert(i, rng.choice(["u8:1", "null", "bytes:h01", "string:s61", "beginarray", "beginbytes", "tag:1", "array:1", "map:1"]))
+        elif r == 4:
+            js = [j for j, t in enumerate(toks) if t.startswith(("array:", "map:"))]
+            if js:
+                j = rng.choice(js); k, _, a = toks[j].partition(":"); toks[j] = f"{k}:{max(0, int(a) + rng.choice([-1, 1]))}"
+        elif r == 5:
+            js = [j for j, t in enumerate(toks) if t == "break"]
+            if js: toks.pop(rng.choice(js))
+        else:
+            j = rng.randrange(len(toks)); toks[i], toks[j] = toks[j], toks[i]
+        if toks:
+            muts.append(toks)
+    muts += [["array:2", "u8:1"], ["tag:1"], ["break"], ["beginbytes", "u8:1", "break"], ["beginstring", "bytes:h01", "break"],
+             ["beginmap", "u8:1", "break"], ["beginarray", "u8:1"], ["map:1", "u8:1"], ["array:18446744073709551615", "u8:1"],
+             ["map:18446744073709551615"], ["beginbytes", "beginbytes", "break", "break"], ["array:0", "break"]]
+    return lists + muts
+
+
+def balanced_stream(rng, tier):
+    lists = balanced_ops(rng, tier)
+    ops = ["tokenc " + ",".join(l) for l in lists]
+    st = Stream("balanced-call-sequences", "hcore", ops, spec_ops=["balanced " + o[7:] for o in ops], judge=judge_balanced,
+                rule=("tokenc <calls>: Encoder call sequences (Encoder::tokens = one Encoder method per token) made from random wire trees "
+                      "(<= 40 calls, depth <= 6, definite and indefinite containers, chunked strings, integer methods of every fitting type, "
+                      "counts/lengths at the width edges) plus mutated, mostly unbalanced sequences as negative controls. For a balanced "
+                      "sequence (decided by the orchestrator's own reader) the implementation's bytes must be exactly the encodings of the "
+                      "denoted items with shortest heads (re-encoded from the tree), must parse as exactly that many well-formed items, must "
+                      "equal the model's bytes, and the model's denotation (`balanced`) must be those items; for an unbalanced sequence nothing "
+                      "is claimed but model = code and `balanced` must say unbalanced.  simple(20..=31) inside a sequence reproduces K1."))
+    st.shrinkable = False
+    return st
 
 
 def judge(op, impl, model, spec):
@@ -129,10 +400,19 @@ def streams(rng, tier):
         return "ok" if wellformed and impl == model else "violation"
     stt = Stream("bare-tag", "hcore", tag_ops, model_ops=[o.replace("tenc Tag", "tenc tag") for o in tag_ops], judge=judge_tag, rule="to_vec(Tag::new(n)): a tag head alone is not a data item (known finding K9)")
     stt.shrinkable = False
+    # every built-in Encode impl on the C01 corpus: the bytes must be the model's, which C03.builtin_pref proves to be the
+    # preferred serialisation of the value's data-model item (unordered collections are canonicalised on both sides)
+    from verifkit.props import C01
+    bops, bmops = C01.enc_ops(C01.corpus(rng, tier))
+    stb = Stream("builtin-encode-impls", "hcore", bops, model_ops=bmops, judge=lambda op, impl, model, spec: "ok" if impl == model else "violation",
+                 rule="tenc <type> <value> for every registered built-in type (C01 corpus): implementation bytes == model bytes (= encPref of the data-model value by builtin_pref)")
+    stb.shrinkable = False
     # determinism: the same ops a second time must give the same bytes
-    return [st, sti, stt, Stream("encoder-methods-again", "hcore", ops[::7], rule="every 7th op of the first stream, run again in a fresh process")]
+    return [st, sti, stt, stb, balanced_stream(rng, tier), Stream("encoder-methods-again", "hcore", ops[::7], rule="every 7th op of the first stream, run again in a fresh process")]
 
 
 def replay_streams(rp):
-    op = rp["op"]
+    op = rp.get("original_op") or rp["op"]
+    if op.startswith("tokenc "):
+        return [Stream("replay", "hcore", [op], spec_ops=["balanced " + op[7:]], judge=judge_balanced)]
     return [Stream("replay", rp.get("binary", "hcore"), [op], spec_ops=["encspec " + op[4:]], judge=judge)]
